@@ -5,6 +5,7 @@ import ast
 import re
 
 from sa.cfg import CFG
+from sa.guards import facts, reaching_defs
 from sa.core import AnalysisError, loc, short, unparse, walk_no_nested
 from sa.fold import EnumVal, Folder
 
@@ -190,13 +191,42 @@ def run(ctx):
     ctx.instance("C18.duplicate-rule", "set[store guarded]", ok,
                  "set() can overwrite an existing tag without replace=True (the duplicate test no longer guards the store, or no longer raises DuplicatedTagError)", loc(setf))
     ag = methods["add_group"]
-    exists_branch_ok = False
-    for n in walk_no_nested(ag):
-        if isinstance(n, ast.If) and " in self" in unparse(n.test):
-            body_src = [unparse(s) for s in n.body]
-            has_check = any("isinstance(" in s and "_FIXRepeatingGroupContainer" in s for s in body_src)
-            raises = any(isinstance(x, ast.Raise) and "FIXMessageError" in unparse(x) for s in n.body for x in walk_no_nested(s))
-            exists_branch_ok = has_check and raises
+    # wherever the container stored under the tag is asked to take the item, it is known to be a group container: checked by
+    # isinstance (the other branch raises the library's message error) or built by the constructor on that path
+    agg = CFG(ag)
+    rda = reaching_defs(agg, exc=False)
+    exists_branch_ok = True
+    n_sites = 0
+    raises_ok = False
+    for n in agg.nodes:
+        if n.kind not in ("stmt", "test") or n.ast is None:
+            continue
+        for c in walk_no_nested(n.ast):
+            if isinstance(c, ast.Call) and isinstance(c.func, ast.Attribute) and c.func.attr == "add_group" and unparse(c.func.value) != "self":
+                n_sites += 1
+                R = unparse(c.func.value)
+                fs = set()
+                for t, lab in agg.guards(n.id, exc=False):
+                    fs |= facts(t, lab == "true")
+                checked = (f"isinstance({R}, _FIXRepeatingGroupContainer)", True) in fs or (f"type({R}) is _FIXRepeatingGroupContainer", True) in fs
+                fresh_only = False
+                if isinstance(c.func.value, ast.Name):
+                    defs = rda[n.id].get(R, set())
+                    fresh_only = bool(defs) and all(isinstance(getattr(agg.nodes[d].ast, "value", None), ast.Call)
+                                                    and unparse(agg.nodes[d].ast.value.func) == "_FIXRepeatingGroupContainer" for d in defs)
+                if not (checked or fresh_only):
+                    exists_branch_ok = False
+                if checked:
+                    for r in agg.nodes:
+                        if r.kind == "stmt" and isinstance(r.ast, ast.Raise) and "FIXMessageError" in unparse(r.ast):
+                            fr = set()
+                            for t, lab in agg.guards(r.id, exc=False):
+                                fr |= facts(t, lab == "true")
+                            if (f"isinstance({R}, _FIXRepeatingGroupContainer)", False) in fr or (f"type({R}) is _FIXRepeatingGroupContainer", False) in fr:
+                                raises_ok = True
+                else:
+                    raises_ok = raises_ok or fresh_only
+    exists_branch_ok = exists_branch_ok and n_sites > 0 and raises_ok
     ctx.instance("C18.duplicate-rule", "add_group[existing tag must be a group]", exists_branch_ok,
                  "add_group() on an existing tag does not check that it holds a group before appending: a plain tag yields AttributeError instead of the library's message error", loc(ag))
     # stored as string
@@ -337,12 +367,41 @@ def run(ctx):
                 ign = {str(Folder.val(x)) for x in v}
     ctx.instance("C18.equality", f"{CLS}.__eq__[dict branch ignore set]", ign == {"8", "9", "10", "35"},
                  f"dict equality ignores tags {sorted(ign) if ign else ign}, expected exactly the four framing tags 8, 9, 10, 35", loc(eq))
+    # the framing tags are ignored whatever the key's spelling: the filter tests the string form of the key (an int 8 is BeginString too)
+    flt = []
+    for n in ast.walk(eq):
+        if isinstance(n, (ast.SetComp, ast.ListComp, ast.GeneratorExp)):
+            for gen in n.generators:
+                for cond in gen.ifs:
+                    if isinstance(cond, ast.Compare) and len(cond.ops) == 1 and isinstance(cond.ops[0], ast.NotIn):
+                        flt.append((gen, cond))
+    ok_f = bool(flt) and all(isinstance(gen.target, ast.Name) and unparse(cond.left) == f"str({gen.target.id})" for gen, cond in flt)
+    ctx.instance("C18.equality", f"{CLS}.__eq__[framing tags ignored by the key's string form]", ok_f,
+                 "the framing-tag filter of dict equality does not test str(key): a framing tag given as int (8, 9, 10, 35) is not ignored", loc(eq))
     # the dict branch compares tag sets and every value
     s = unparse(eq)
     set_locals = [n.targets[0].id for n in walk_no_nested(eq) if isinstance(n, ast.Assign) and isinstance(n.targets[0], ast.Name)
                   and isinstance(n.value, ast.Call) and unparse(n.value.func) == "set"]
     cmp_sets = any(isinstance(n, ast.Compare) and isinstance(n.ops[0], ast.NotEq) and {unparse(n.left), unparse(n.comparators[0])} == set(set_locals) and len(set_locals) == 2
                    for n in walk_no_nested(eq))
+    if not cmp_sets:
+        # the same comparison with the two key sets written in place (or through other locals): each side is a set of str(k)
+        # over the keys of one operand, the two operands being `other` and `self.tags`
+        from sa.guards import resolved
+
+        def key_set_of(e):
+            e = resolved(eq, e)
+            comp = e.args[0] if isinstance(e, ast.Call) and unparse(e.func) == "set" and len(e.args) == 1 else e
+            if isinstance(comp, (ast.SetComp, ast.ListComp, ast.GeneratorExp)) and len(comp.generators) == 1:
+                gen = comp.generators[0]
+                if isinstance(gen.target, ast.Name) and unparse(comp.elt) == f"str({gen.target.id})":
+                    it = unparse(gen.iter)
+                    return "other" if it in ("other", "other.keys()") else ("self" if it in ("self.tags", "self.tags.keys()") else None)
+            return None
+        for n in ast.walk(eq):
+            if isinstance(n, ast.Compare) and len(n.ops) == 1 and isinstance(n.ops[0], ast.NotEq):
+                if {key_set_of(n.left), key_set_of(n.comparators[0])} == {"other", "self"}:
+                    cmp_sets = True
     getk = set(re.findall(r"self\.get\((\w+)\)", s))
     othk = set(re.findall(r"str\(other\[(\w+)\]\)", s))
     ok = cmp_sets and bool(getk & othk)
